@@ -197,6 +197,11 @@ func c02make(w *c02world, m c02msg) (data []byte, src string, valid bool, pendin
 		src = sw.remotes[1].addr.String()
 	case "mapped0":
 		src = fmt.Sprintf("[::ffff:%s]:%d", sw.remotes[0].addr.IP.String(), sw.remotes[0].addr.Port)
+	case "near0port": // the known remote's IP, another port (same high byte)
+		src = fmt.Sprintf("%s:%d", sw.remotes[0].addr.IP.String(), sw.remotes[0].addr.Port^0x80)
+	case "near0ip": // the known remote's port on another IP
+		ip := sw.remotes[0].addr.IP.To4()
+		src = fmt.Sprintf("%d.%d.%d.%d:%d", ip[0], ip[1], ip[2]^0x40, ip[3], sw.remotes[0].addr.Port)
 	default:
 		src = "10.9.9.9:999"
 	}
@@ -397,7 +402,7 @@ func c02messages(quick bool) []c02msg {
 	users := []string{"ok", "swapped", "Lx", "xR", "L", "LRextra", "prefix", "absent", "prevgen"}
 	mis := []string{"ok", "otherpwd", "prevgen", "absent", "corrupt", "early"}
 	fps := []string{"ok", "absent", "wrong"}
-	srcs := []string{"remote0", "remote1", "unknown", "mapped0"}
+	srcs := []string{"remote0", "remote1", "unknown", "mapped0", "near0port", "near0ip"}
 	attrs := []string{"", "uc", "role", "prio", "nom", "uc+role+prio", "uc+prio", "role+prio", "uc+nom+role+prio", "samerole+prio", "uc+samerole"}
 	if quick {
 		attrs = []string{"", "uc+role+prio", "role+prio", "uc+nom+role+prio", "samerole+prio"}
@@ -476,7 +481,7 @@ func checkC02(c *runCtx) {
 				w.inject(w.x.socks[cs.Msg.To], src, data)
 				after := c02snapshot(w.soloWorld)
 				diff := c02diff(before, after)
-				known := cs.Msg.Src != "unknown"
+				known := cs.Msg.Src != "unknown" && !strings.HasPrefix(cs.Msg.Src, "near")
 				switch {
 				case cs.Msg.Class == "request" && valid:
 					class = "valid request (unconstrained here)"
